@@ -292,6 +292,15 @@ pub fn next_solution<'a>(sn: Rc<RefCell<SolutionNode<'a>>>)
 
                 if sn_ref.rule_index >= sn_ref.number_facts_rules { return None; }
 
+                // The IDs of this goal's variables, and of the variables
+                // bound in its substitution set, are in use. Constructing
+                // another query resets LOGIC_VAR_ID (see make_query()); if
+                // that happened after this query was constructed, the IDs
+                // must not be handed out again.
+                let in_use = std::cmp::max(cmplx.max_var_id(),
+                                           sn_ref.ss.len().saturating_sub(1));
+                if get_var_id() < in_use { set_var_id(in_use); }
+
                 // The fallback_id saves the logic variable ID (LOGIC_VAR_ID),
                 // in case the next rule fails. Restoring this id will keep
                 // the length of the substitution set as short as possible.
